@@ -19,6 +19,7 @@ package main
 import (
 	"context"
 	"fmt"
+	"strings"
 	"sync"
 	"sync/atomic"
 	"time"
@@ -49,6 +50,7 @@ func init() {
 				{name: "engine-overlap", n: cN, perChild: cN / 16, timeout: 30 * time.Minute, env: chaos},
 				{name: "engine-race", n: d, perChild: d / 16, race: true, timeout: 30 * time.Minute, env: chaos},
 			}
+			ms = append(ms, modeSpec{name: "successor", n: cN / 10, perChild: cN / 160, timeout: 20 * time.Minute, env: chaos})
 			ms = append(ms, modeSpec{name: "held-child", n: 4 * (1 + 3*b2int(tier == "thorough")), perChild: 1, timeout: 10 * time.Minute})
 			if tier == "thorough" {
 				for _, g := range []int{1, 2, 4} {
@@ -62,6 +64,8 @@ func init() {
 			switch {
 			case c.mode == "raw-sustained":
 				return c02Sustained(c)
+			case c.mode == "successor":
+				return c02Successor(c)
 			case c.mode == "held-child":
 				return c02Held(c, false)
 			case len(c.mode) >= 8 && c.mode[:8] == "raw-race":
@@ -625,5 +629,115 @@ func c02Held(c *caseCtx, forC08 bool) (res caseResult) {
 	if c.n < 1 || res.Verdict == vViolated {
 		res.Sample = map[string]any{"scenario": res.Desc, "child_log_while_held": during}
 	}
+	return res
+}
+
+// ---- successor: an actor that, when it is told Stopped, spawns its successor and hands it work ----
+
+type succLog struct {
+	mu       sync.Mutex
+	overlaps []string
+	handled  map[int]int // generation -> user messages handled
+	gens     int32
+}
+
+type succActor struct {
+	gen      int
+	lg       *succLog
+	inflight int32
+	last     int
+	work     int
+}
+
+type succMsg struct{ N int }
+
+func (a *succActor) Receive(c *actor.Context) {
+	if atomic.AddInt32(&a.inflight, 1) != 1 {
+		a.lg.mu.Lock()
+		a.lg.overlaps = append(a.lg.overlaps, fmt.Sprintf("generation %d: %T began while another invocation was in flight", a.gen, c.Message()))
+		a.lg.mu.Unlock()
+	}
+	defer atomic.AddInt32(&a.inflight, -1)
+	switch m := c.Message().(type) {
+	case succMsg:
+		if m.N != a.last+1 {
+			a.lg.mu.Lock()
+			a.lg.overlaps = append(a.lg.overlaps, fmt.Sprintf("generation %d: message %d after %d", a.gen, m.N, a.last))
+			a.lg.mu.Unlock()
+		}
+		a.last = m.N
+		if m.N <= 3 {
+			time.Sleep(150 * time.Microsecond) // busy right away
+		}
+		userPerturb()
+		a.lg.mu.Lock()
+		a.lg.handled[a.gen]++
+		a.lg.mu.Unlock()
+	case actor.Stopped:
+		// hand over: the successor exists, and has work, before this actor's worker has returned
+		next := &succActor{gen: a.gen + 1, lg: a.lg, work: a.work}
+		atomic.AddInt32(&a.lg.gens, 1)
+		p := c.Engine().Spawn(func() actor.Receiver { return next }, "succ", actor.WithID(fmt.Sprint(next.gen)))
+		for i := 1; i <= a.work; i++ {
+			c.Engine().Send(p, succMsg{N: i})
+		}
+	}
+}
+
+func c02Successor(c *caseCtx) (res caseResult) {
+	r := c.rng
+	wd := watchdog(c.tier)
+	e, err := actor.NewEngine(actor.NewEngineConfig())
+	if err != nil {
+		res.inconclusive("engine: %v", err)
+		return
+	}
+	G := 3 + r.Intn(6)
+	work := 20 + r.Intn(200)
+	lg := &succLog{handled: map[int]int{}}
+	first := &succActor{gen: 0, lg: lg, work: work}
+	pid := e.Spawn(func() actor.Receiver { return first }, "succ", actor.WithID("0"))
+	for i := 1; i <= 5; i++ {
+		e.Send(pid, succMsg{N: i})
+	}
+	res.Desc = fmt.Sprintf("successor chain: %d generations, each spawned and given %d messages from inside its predecessor's Stopped handler", G, work)
+	for g := 0; g < G; g++ {
+		want := work
+		if g == 0 {
+			want = 5
+		}
+		if !waitFor(wd, func() bool { lg.mu.Lock(); defer lg.mu.Unlock(); return lg.handled[g] >= want }) {
+			lg.mu.Lock()
+			h := lg.handled[g]
+			ov := append([]string(nil), lg.overlaps...)
+			lg.mu.Unlock()
+			if len(ov) > 0 {
+				res.violate("%s (and generation %d handled only %d of %d messages)", strings.Join(head(ov, 4), "; "), g, h, want)
+			} else {
+				res.inconclusive("generation %d handled %d of %d messages", g, h, want)
+			}
+			return
+		}
+		var ctx context.Context
+		if r.Intn(2) == 0 {
+			ctx = e.Poison(actor.NewPID("local", fmt.Sprintf("succ/%d", g)))
+		} else {
+			ctx = e.Stop(actor.NewPID("local", fmt.Sprintf("succ/%d", g)))
+		}
+		select {
+		case <-ctx.Done():
+		case <-time.After(wd):
+			res.inconclusive("generation %d did not stop", g)
+			return
+		}
+	}
+	lg.mu.Lock()
+	ov := append([]string(nil), lg.overlaps...)
+	lg.mu.Unlock()
+	if len(ov) > 0 {
+		res.violate("%d violations of one-at-a-time delivery, e.g. %s", len(ov), strings.Join(head(ov, 4), "; "))
+	}
+	res.count("successor_generations", int64(G))
+	res.Sig = sigHash("successor", G, work/40)
 	return res
 }
